@@ -1272,6 +1272,21 @@ class Gen:
         self.out.append(f"(* {fname}:{loops[0].lineno} {qual}: the data rows *)\n{tr.translate()}")
         self.out.append(f"(* {fname}:{node.lineno} {qual}: where the columns come from *)\nDefinition {coqname}_sources : list string := {self.slist(pinned)}.")
 
+    def if_test(self, fname, qual, body_text, coqname, params, rettype="bool", mentions=None):
+        """the test of the unique `if` inside `qual` whose body is exactly `body_text`, as a boolean function of `params`"""
+        node = self.find(fname, qual)
+        hits = [n for n in ast.walk(node) if isinstance(n, ast.If) and not n.orelse and "; ".join(ast.unparse(b) for b in n.body) == body_text
+                and (mentions is None or any(isinstance(x, ast.Name) and x.id == mentions for x in ast.walk(n.test)))]
+        if len(hits) != 1:
+            raise Unsupported(f"{qual}: expected exactly one `if ...: {body_text}`, found {len(hits)}")
+        fake = ast.FunctionDef(name=coqname, args=ast.arguments(posonlyargs=[], args=[ast.arg(arg=p) for p in params], kwonlyargs=[], kw_defaults=[], defaults=[]),
+                               body=[ast.Return(value=hits[0].test)], decorator_list=[], lineno=hits[0].lineno, col_offset=0)
+        ast.fix_missing_locations(fake)
+        tr = FuncTr(self, fake, coqname)
+        self.out.append(f"(* {fname}:{hits[0].lineno} {qual}: test of `if ...: {body_text}` *)\n{tr.translate()}")
+        self.funcs[coqname] = coqname
+        self.func_rettypes[coqname] = rettype
+
     def raw(self, text):
         self.out.append(text)
 
@@ -1393,6 +1408,9 @@ def build_spec(g):
     g.func("shape.py", "point_polygon_check.between", coqname="between", rettype="bool")
     g.assign_expr("shape.py", "point_polygon_check", "c", "ppc_cross", ["v1x", "px", "v2y", "py", "v2x", "v1y"])
     g.default_arg("shape.py", "point_polygon_check", "on_edge_tolerance", "ppc_on_edge_tolerance")
+    g.if_test("shape.py", "point_polygon_check", "continue", "ppc_vertex_rule", ["py", "v1y", "v2y"])
+    g.if_test("shape.py", "point_polygon_check", "inside = not inside", "ppc_flip_rule", ["v1y", "v2y", "c"])
+    g.if_test("shape.py", "point_polygon_check", "return 0", "ppc_on_line_rule", ["c"], mentions="c")
     g.default_arg("feature_recognition.py", "remove_cutout", "on_edge_tolerance", "cutout_on_edge_tolerance")
     # ---- the hybrid load sequence (ground_loads.py), the whole method ----
     lq = "list Q"
